@@ -281,3 +281,21 @@ func (cg *CG) StaticCallers(obj *types.Func) []*Site { return cg.ByObj[obj] }
 
 // CallersOf lists every site that may call f (static, CHA or func-value).
 func (cg *CG) CallersOf(f *Func) []*Site { return cg.In[f] }
+
+// ReachersOf returns every workspace function from which target is reachable through call
+// edges (static edges and CHA-resolved interface edges), target itself excluded.
+func (cg *CG) ReachersOf(target *Func) map[*Func]bool {
+	out := map[*Func]bool{}
+	work := []*Func{target}
+	for len(work) > 0 {
+		f := work[len(work)-1]
+		work = work[:len(work)-1]
+		for _, s := range cg.In[f] {
+			if s.Caller != nil && !out[s.Caller] && s.Caller != target {
+				out[s.Caller] = true
+				work = append(work, s.Caller)
+			}
+		}
+	}
+	return out
+}
